@@ -30,7 +30,11 @@ from typing import Awaitable, Dict, List, Optional, Set, Tuple, Type, Union
 from ._cache import DNSCache
 from ._dns import DNSQuestion, DNSQuestionType
 from ._engine import AsyncEngine
-from ._exceptions import NonUniqueNameException, NotRunningException
+from ._exceptions import (
+    NamePartTooLongException,
+    NonUniqueNameException,
+    NotRunningException,
+)
 from ._handlers.multicast_outgoing_queue import MulticastOutgoingQueue
 from ._handlers.query_handler import QueryHandler
 from ._handlers.record_manager import RecordManager
@@ -613,7 +617,16 @@ class Zeroconf(QuietLogger):
         transports = [transport] if transport else self.engine.senders
         log_debug = log.isEnabledFor(logging.DEBUG)
 
-        for packet_num, packet in enumerate(out.packets()):
+        try:
+            packets = out.packets()
+        except NamePartTooLongException:
+            # A name learned from the network may not be encodable again (a label
+            # decoded with replacement characters can exceed 63 bytes); drop the
+            # message instead of raising into the event loop or a timer callback
+            self.log_warning_once("Dropping %r as it contains a name part that is too long", out)
+            return
+
+        for packet_num, packet in enumerate(packets):
             if len(packet) > _MAX_MSG_ABSOLUTE:
                 self.log_warning_once("Dropping %r over-sized packet (%d bytes) %r", out, len(packet), packet)
                 return
